@@ -5,7 +5,7 @@ import struct
 from . import btc, ref, run
 
 OPBYTES = {'DUP': [0x76], 'HASH160': [0xa9], 'EQUALVERIFY': [0x88], 'CHECKSIG': [0xac], 'EQUAL': [0x87], 'RETURN': [0x6a],
-           'CHECKMULTISIG': [0xae], 'OP0': [0x00], 'N1': [0x51], 'N2': [0x52], 'N3': [0x53], 'N16': [0x60],
+           'CHECKMULTISIG': [0xae], 'OP0': [0x00], 'N1': [0x51], 'N2': [0x52], 'N3': [0x53], 'N16': [0x60], **{'N%d' % k: [0x50 + k] for k in range(4, 16)},
            'NOP': [0x61], 'NOP4': [0xb0, 0xb1, 0xb2, 0xb3, 0xb9], 'RESERVED': [0x50, 0x62, 0x89, 0x8a], 'VERIF': [0x65, 0x66],
            'CAT': [0x7e, 0x7f, 0x80, 0x81, 0x83, 0x84, 0x85, 0x86, 0x8d, 0x8e, 0x95, 0x96, 0x97, 0x98, 0x99],
            'HIGH': list(range(0xba, 0xff)), 'INVALID': [0xff], 'ADD': [0x93, 0x75, 0x63, 0x68, 0xa8, 0xaa, 0xad, 0xaf, 0x7c], 'NEG1': [0x4f]}
@@ -54,7 +54,7 @@ def expect_addr(verdict, payloads, items, coin):
         return btc.b58check(bytes([c['p2sh']]) + p)
     if k in ('bech32', 'bech32m'):
         name = items[0]['name']
-        ver = 0 if name == 'OP0' else {'N1': 1, 'N2': 2, 'N3': 3, 'N16': 16}[name]
+        ver = 0 if name == 'OP0' else int(name[1:])
         return btc.segwit_addr(c['hrp'], ver, p)
     if k == 'ver+payload':
         return btc.b58check(bytes([c['ver']]) + p)
